@@ -2,10 +2,15 @@
 from props import _ikcommon as K
 ID = "C05"
 COQ_TARGETS = ["Exec/Kin.vo", "Gen/Consts.vo", "Properties/C05.vo"]
-THEOREMS = ["C05_singular_iff_band", "C05_recovered_moves_equally"]
+THEOREMS = ["C05_singular_iff_band", "C05_recovered_moves_equally", "C05_flag_iff_axes", "C05_collinear_is_singular",
+            "C05_candidate_restores_previous", "C05_candidate_fixpoint", "C05_first_is_previous"]
 LEVEL_TEXT = ("Coq theorems: a configuration is reported singular iff the model angle of J5 (sign, offset applied) lies strictly within "
               "the threshold of a multiple of pi, on either side (all reals, any period); the recovered candidate moves J4 and J6 by "
-              "the same amount in model angles for any +-1 sign convention")
+              "the same amount in model angles for any +-1 sign convention; geometric meaning on the link frames generated from "
+              "forward_with_joint_poses: flagged <=> sine of the angle between the z axes of link frames 4 and 6 < sin(threshold), for "
+              "every parameter set / sign / offset; the recovered candidate equals the previous vector when the singular kernel row has "
+              "the previous arm angles, J5 and a congruent wrist sum, and the previous vector, once among the raw answers, is the first "
+              "answer of inverse_continuing (unweighted cost) for every kernel / FK verdict")
 LEVEL_NOTE = K.NOTE + "; the robustness of the 0.125 um shift is numeric and is decided by the oracle search on well-conditioned postures"
 TECHNIQUE = K.TECH
 RULE = ("KIN function records (is_close_to_multiple_of_pi, are_angles_close, kinematic_singularity with J5 at n*pi +- {0.3..30} thr, "
@@ -13,6 +18,7 @@ RULE = ("KIN function records (is_close_to_multiple_of_pi, are_angles_close, kin
         "from the independent link chain vs the report; continuity: first answer equals previous on J5=0 poses")
 EXPLANATION = "see LEVEL_NOTE"
 ASSUMPTIONS = K.ASSUME
-PARTIAL = ["'first continuation answer equals the previous joints' depends on the numeric conditioning of the shifted re-solve: oracle search only"]
+PARTIAL = ["'first continuation answer equals the previous joints': proved conditionally (the kernel row at the shifted pose has the previous arm angles and a congruent wrist sum; "
+           "the candidate passes the pose check); that the f64 re-solve of a pose shifted by 0.125 um meets those conditions within tolerance is numeric conditioning: oracle search only"]
 correspondence, search = K.make("C05", lambda r: r["fn"] in ("is_close_to_multiple_of_pi", "are_angles_close", "kinematic_singularity")
                                 or (r["fn"] == "entry" and r["entry"] == 1 and r["kind"] in ("Sing0", "SingPi")))
